@@ -10,7 +10,7 @@ prop("C13", pkg="c13",
           "(thriftspec.Dialect) so that all other clauses stay compared; every case whose bytes depend on such a clause is counted in excluded_known under that class. "
           "Non-trivial = content with >= 1 container or >= 3 fields; distinct = FNV-64 of the serialised case.",
      quick=dict(shards=16, scale=1, timeout=600),
-     thorough=dict(shards=16, scale=10, timeout=3000),
+     thorough=dict(shards=16, scale=4, timeout=3000),
      technique="differential property-based testing (rapid) against a transcription of the Apache Thrift binary and compact protocol specifications "
                "(encoder and decoder written in the harness, not sharing code with the library)",
      level_text="Exploration: ~0.96 M cases per quick run; Writer and Marshal output must equal the specification's bytes and every generated conformant alternative "
